@@ -35,7 +35,7 @@ RULE = (
     "finite-sites and stacked mutations; samples grouped into diploid individuals on all or some samples; "
     "0..12 drawn extra mutations on leaf edges) x drawn re-phasing (each singleton moved w.p. 1/2) x "
     "configuration (mu, EP iterations, rescaling_intervals in {0,5,1000}, both rescaling targets, root "
-    "regularisation); plus malformed individual patterns (haploid/triploid) for the rejection path; "
+    "regularisation); plus malformed individual patterns (haploid/triploid/historical) for the rejection path; "
     "non-trivial = >= 1 singleton moved by the re-phasing and >= 1 singleton switched by tsdate; "
     "distinct by SHA-1 of (tables, flips, configuration)"
 )
@@ -195,19 +195,20 @@ def check(case, ctx):
                              f"one phasing of the input returns, the other raises {bad!r}"))
         return out
     (d1, f1), (d2, f2) = ru, ru2
-    out += check_nodes(ts, d1, False, other)
-    out += check_nodes(ts2, d2, False, P.other_node_map(ts2))
-    if out:
-        return out
-    o1, o2 = observables(ts, d1, f1), observables(ts2, d2, f2)
-    switched = int(np.sum(o1["mutations_node"] != ts.mutations_node)) + \
-        int(np.sum(o2["mutations_node"] != ts2.mutations_node))
+    # non-triviality is decided before judging (the runner's too-few-cases test precedes its verdict)
+    switched = sum(sorted((m.derived_state, m.node) for m in a.mutations()) !=
+                   sorted((m.derived_state, m.node) for m in b.mutations()) for a, b in ((ts, d1), (ts2, d2)))
     if moved:
         ctx.label("rephased")
     if switched:
         ctx.label("tsdate_switched")
     if moved and switched:
         ctx.mark_nontrivial()
+    out += check_nodes(ts, d1, False, other)
+    out += check_nodes(ts2, d2, False, P.other_node_map(ts2))
+    if out:
+        return out
+    o1, o2 = observables(ts, d1, f1), observables(ts2, d2, f2)
     phase = np.asarray(f1.mutation_phase, dtype=float)
     tie = np.abs(phase - 0.5) < 1e-9
     identical = True
@@ -223,14 +224,14 @@ def check(case, ctx):
                 m = int(np.flatnonzero(neq)[0])
                 out.append(Violation("rephase:output_node_depends_on_input_phase",
                                      f"mutation {m}: output node {int(a[m])} vs {int(b[m])} after re-phasing "
-                                     f"(phase {phase[m]!r})", moved=moved[:10]))
+                                     f"(phase {float(phase[m])!r})", moved=moved[:10]))
             continue
         if not np.array_equal(a, b, equal_nan=True):
             identical = False
         r = rel_err(a, b)
         if np.any(r > TOL):
             i = int(np.argmax(r))
-            out.append(Violation("rephase:" + k, f"{k}[{i}] = {a[i]!r} vs {b[i]!r} after re-phasing {len(moved)} "
+            out.append(Violation("rephase:" + k, f"{k}[{i}] = {float(a[i])!r} vs {float(b[i])!r} after re-phasing {len(moved)} "
                                  f"singleton(s) (rel.err {r[i]:.3g})", moved=moved[:10]))
             break
     if moved:
